@@ -77,7 +77,7 @@ P = D.DesignProperty(
     rule=("case = generated design spec in the reference domain; every model of its formula (capped) and every sequence returned by "
           "IterateSATGen, CMSGen, UniGen and solver-backed IterateGen/UniformGen is judged by the reference validity predicate; "
           "non-trivial = at least one sequence judged and a derived factor, constraint or weight is present; distinct = distinct spec JSON"),
-    cfg_quick=CFG, n_quick=40, n_thorough=500, case_limit=(15, 120),
+    cfg_quick=CFG, n_quick=40, n_thorough=300, case_limit=(15, 120),
     limits={"max_T": {"quick": 9, "thorough": 14}, "max_models": {"quick": 400, "thorough": 4000},
             "max_T_unigen": {"quick": 6, "thorough": 10}},
     assumptions=["vp/ref.py implements the documented semantics (self-test against the maintainers' expected counts)"])
